@@ -64,7 +64,11 @@ template<int fixed_mode> static void run_analyze() {
 #if SS_NV >= 4 && !defined(SS_NO_THEORY) && !defined(SS_SHAPE_LIMS)
     if constexpr (fixed_mode != 0) { if (tcsz > n && g_nth > 0) { VWITNESS("minimisation-and-theory-reason"); } }   // needs >= 4 variables
 #endif
-#ifdef SS_SHAPE_LIMS
+#if defined(SS_SHAPE_LIMS) && SS_NL >= 3
+    // three decision levels: a literal was minimised away and two literals of lower levels remain, so the back-jump literal has to be found among them
+    if constexpr (fixed_mode != 0) { if (tcsz > n && n >= 3) { VWITNESS("minimised-clause-keeps-two-lower-level-literals"); } }
+#endif
+#if defined(SS_SHAPE_LIMS) && !defined(SS_NO_THEORY)
     {   // a theory-propagated literal of a lower level occurs (negated) in the reason of a literal of the un-minimised clause
         bool fake_behind = false;
         for (int i = 1; i <= SS_NV; i++) if (i < tcsz) { int q = lvar(S->analyze_toclear[i].x); if (q >= 0 && q < SS_NV && g_kind[q] == K_CLAUSE) for (int j = 1; j < SS_ML; j++) if (j < g_csz[q] && g_kind[lvar(g_clit[q][j])] == K_FAKE) fake_behind = true; }
